@@ -235,12 +235,11 @@ Section Props.
     change (m_mid (sp_req' cfg req)) with (m_mid req).
     change (m_token (sp_req' cfg req)) with (m_token req).
     change (m_type (sp_req' cfg req)) with ty.
-    destruct (sp_target cfg req) eqn:Et; cbv beta iota zeta.
-    - apply (after_handler_ok _ false); [exact Hc|discriminate].
-    - apply (after_handler_ok _ (ty =? NR_CON)); [exact Hc|]. intros E. unfold NR_CON in *. lia.
-    - apply (after_handler_ok _ false); [exact Hc|discriminate].
-    - destruct (dp_has DP_BLOCK2 (m_opts (sp_req' cfg req))); [apply nil_ok_skip|apply finish_ok; exact Hc].
-    - apply (after_handler_ok _ false); [exact Hc|discriminate].
+    destruct (sp_target cfg req) eqn:Et; cbv beta iota zeta;
+      try (destruct (dp_observe _ _); try apply nil_ok_skip).
+    all: try (apply (after_handler_ok _ false); [exact Hc|discriminate]).
+    all: try (apply (after_handler_ok _ (ty =? NR_CON)); [exact Hc|]; intros E; unfold NR_CON in *; lia).
+    destruct (dp_has DP_BLOCK2 (m_opts (sp_req' cfg req))); [apply nil_ok_skip|apply finish_ok; exact Hc].
   Qed.
 
   (* ---- every allowed output is well-formed ---- *)
@@ -499,11 +498,12 @@ Qed.
    request's method, with the request above and its reconstructed query *)
 Theorem handler_call : forall cfg h mc req,
   sp_target cfg req <> TWellKnown ->
+  dp_observe (sp_target cfg req) (sp_req' cfg req) <> ObsBlocked ->
   dp_calls (sp_handler_out cfg h mc req) =
   [mkHreq (dp_target_rid (sp_target cfg req)) (m_code req) (sp_req' cfg req)
           (dp_query cfg (m_opts req))].
 Proof.
-  intros cfg h mc req Hwk. unfold sp_handler_out, dp_invoke.
+  intros cfg h mc req Hwk Hob. unfold sp_handler_out, dp_invoke.
   rewrite <- (dp_values_query_adj cfg req).
   change (m_opts (sp_req' cfg req)) with (sp_adjusted cfg req).
   change (m_code (sp_req' cfg req)) with (m_code req).
@@ -520,12 +520,9 @@ Proof.
       fold (dp_calls (dp_finish cfg mc (sp_req' cfg req) rf false false
                         (mkMsg (dp_resp_type (sp_req' cfg req)) c (m_mid (sp_req' cfg req)) (m_token (sp_req' cfg req)) o p)));
       rewrite finish_calls; reflexivity. }
-  destruct (sp_target cfg req) eqn:Et.
-  - apply (Htail _ false).
-  - apply (Htail _ (m_type (sp_req' cfg req) =? NR_CON)).
-  - apply (Htail _ false).
-  - congruence.
-  - apply (Htail _ false).
+  destruct (sp_target cfg req) eqn:Et; try congruence;
+    destruct (dp_observe _ (sp_req' cfg req)) eqn:Eo; try congruence;
+    first [apply (Htail _ false) | apply (Htail _ (m_type (sp_req' cfg req) =? NR_CON))].
 Qed.
 
 (* the built-in /.well-known/core resource: no application handler, a 2.05 with
@@ -546,6 +543,8 @@ Qed.
 Theorem handler_out_is : forall cfg h mc req,
   (m_type req = NR_CON \/ m_type req = NR_NON) ->
   (match sp_target cfg req with TRes _ | TUnknown _ _ => True | _ => False end) ->
+  let obs := dp_observe (sp_target cfg req) (sp_req' cfg req) in
+  obs <> ObsBlocked ->
   let i := mkHreq (dp_target_rid (sp_target cfg req)) (m_code req) (sp_req' cfg req)
                   (dp_query cfg (m_opts req)) in
   let r := h i in
@@ -559,7 +558,8 @@ Theorem handler_out_is : forall cfg h mc req,
   | NrEmptyAck => [EvTx false (dp_empty NR_ACK (m_mid req))]
   | NrSendAsIs =>
       [EvTx false (mkMsg (dp_resp_type req) (hr_code r) (m_mid req) (m_token req)
-                         (dp_sent_opts false (hr_code r) true (hr_opts r)) (hr_payload r))]
+                         (dp_sent_opts false (hr_code r) true (dp_resp_opts obs (hr_code r) (hr_opts r)))
+                         (hr_payload r))]
   end.
 Proof.
   intros cfg h mc req Hty Ht. cbv zeta.
@@ -575,7 +575,9 @@ Proof.
   change (dp_resp_type (sp_req' cfg req)) with (dp_resp_type req).
   change (m_mid (sp_req' cfg req)) with (m_mid req).
   change (m_token (sp_req' cfg req)) with (m_token req).
-  destruct (sp_target cfg req) eqn:Et; try contradiction; cbv beta iota zeta; cbn [app];
+  destruct (sp_target cfg req) eqn:Et; try contradiction;
+    destruct (dp_observe _ (sp_req' cfg req)) eqn:Eo; intros Hob; try congruence;
+    cbv beta iota zeta; cbn [app];
     match goal with |- context [h ?x] => set (i := x); set (hr := h i) end;
     intros Hstd H168;
     (assert (Hbc : dp_bad_class (hr_code hr) = false)
@@ -698,7 +700,7 @@ Qed.
 (* ---- non-vacuity: concrete servers and requests ---- *)
 Definition ex_handler (_ : dp_hreq) : dp_hresp := mkHresp 69 [(12, [0])] [104; 105].
 Definition ex_cfg : dp_cfg :=
-  mkCfg true [] [mkRes [97] 1 8; mkRes [98] 3 0] (Some (4, 0)) None (fun _ => [60; 47; 97; 62])
+  mkCfg true [] [mkRes [97] 1 8 true; mkRes [98] 3 0 false] (Some (4, 0)) None (fun _ => [60; 47; 97; 62])
         dp_unescaped_path dp_unescaped_query.
 Definition ex_get (ty : Z) (path : bytes) (extra : list opt) : msg :=
   mkMsg ty 1 4660 [170; 187] ((11, path) :: extra) [].
@@ -714,7 +716,7 @@ Example ex_handler_runs :
   [dp_serve ex_cfg ex_handler false (ex_get 0 [97] [])].
 Proof.
   split; [vm_compute; reflexivity|]. split; [vm_compute; reflexivity|].
-  split; [split; [discriminate|split; [intros i; vm_compute; discriminate|intros H; vm_compute in H; discriminate]]|].
+  split; [split; [discriminate|split; [intros i; vm_compute; discriminate|split; [intros H; vm_compute in H; discriminate|vm_compute; discriminate]]]|].
   vm_compute. reflexivity.
 Qed.
 
@@ -743,7 +745,7 @@ Example ex_rules :
   dp_serve ex_cfg ex_handler false (mkMsg 0 2 1 [] [(5, []); (11, [98])] []) =
     [EvTx true (mkMsg 2 140 1 [] [] [])] /\
   (* FETCH without Content-Format (a FETCH handler exists on /f) *)
-  dp_serve (mkCfg false [] [mkRes [102] 16 0] None None (fun _ => []) dp_unescaped_path dp_unescaped_query) ex_handler false
+  dp_serve (mkCfg false [] [mkRes [102] 16 0 false] None None (fun _ => []) dp_unescaped_path dp_unescaped_query) ex_handler false
            (mkMsg 0 5 1 [] [(11, [102])] []) = [EvTx true (mkMsg 2 143 1 [] [] [])] /\
   (* proxy option without proxy support *)
   dp_serve ex_cfg ex_handler false (mkMsg 0 1 1 [] [(3, [104]); (11, [97]); (39, [99])] []) =
@@ -911,13 +913,13 @@ Proof.
         revert Hm. fold (dp_txs (dp_finish cfg true (sp_req' cfg req) rf early false
                         (mkMsg (dp_resp_type (sp_req' cfg req)) c (m_mid (sp_req' cfg req)) (m_token (sp_req' cfg req)) o p))).
         intros Hm. exact (Hfin3 _ _ _ _ _ _ _ _ _ _ _ Hm Hrst). }
-    destruct (sp_target cfg req).
-    + exact (Htail _ false _ _ _ _ Hin).
-    + exact (Htail _ (m_type (sp_req' cfg req) =? NR_CON) _ _ _ _ Hin).
-    + exact (Htail _ false _ _ _ _ Hin).
-    + destruct (dp_has DP_BLOCK2 (m_opts (sp_req' cfg req))); [cbn in Hin; contradiction|].
-      exact (Hfin3 _ _ _ _ _ _ _ _ _ _ _ Hin Hrst).
-    + exact (Htail _ false _ _ _ _ Hin).
+    destruct (sp_target cfg req);
+      try (destruct (dp_observe _ (sp_req' cfg req));
+           first [exact (Htail _ false _ _ _ _ Hin)
+                 | exact (Htail _ (m_type (sp_req' cfg req) =? NR_CON) _ _ _ _ Hin)
+                 | (cbn in Hin; contradiction)]).
+    destruct (dp_has DP_BLOCK2 (m_opts (sp_req' cfg req))); [cbn in Hin; contradiction|].
+    exact (Hfin3 _ _ _ _ _ _ _ _ _ _ _ Hin Hrst).
 Qed.
 
 (* ---- the options echoed in the 4.02 of coap_dispatch(): only options of the request, only
@@ -1018,7 +1020,7 @@ Example mcast_reset_refused :
   dp_allowed ex_cfg ex_handler false req [EvTx false (dp_empty NR_RST 4660)].
 Proof.
   cbv zeta. split; [repeat constructor; cbn; lia|].
-  split; [split; [discriminate|split; [intros i; vm_compute; discriminate|intros H; vm_compute in H; discriminate]]|].
+  split; [split; [discriminate|split; [intros i; vm_compute; discriminate|split; [intros H; vm_compute in H; discriminate|vm_compute; discriminate]]]|].
   split; [|split].
   - unfold dp_allowed. vm_compute. intros H.
     repeat (destruct H as [H | H]; [discriminate H|]). exact H.
